@@ -322,6 +322,17 @@ func (f *Fabric) Link(from, to peer.ID) *Link {
 	return l
 }
 
+// StalledSenders returns how many senders are blocked in SendMsg on stalled links.
+func (f *Fabric) StalledSenders() int64 {
+	f.mu.Lock()
+	defer f.mu.Unlock()
+	n := int64(0)
+	for _, l := range f.links {
+		n += l.StalledSenders()
+	}
+	return n
+}
+
 // Link is a directed FIFO link with controls.
 type Link struct {
 	f        *Fabric
